@@ -25,7 +25,9 @@ RULE = ("seeded runs of 1-6 data-in facade calls (every data-in command, every P
         "mode pages, READ CD layouts, READ ELEMENT STATUS with and without volume tags; random allocation lengths incl. 0) against a "
         "live simulated target whose well-formed response is corrupted inside the command: embedded length/count fields set to "
         "0/1/max/true+-1, inconsistent combinations, byte flips, truncation, all-00/all-FF, garbage, plus hostile sense payloads; the "
-        "corrupted bytes are also decoded directly at every truncation. Non-trivial = a corruption fault fired and the decoder ran on "
+        "corrupted bytes are also decoded directly at every truncation; 8% of the calls meet a target that keeps answering the same way "
+        "(UNIT ATTENTION / NOT READY / BUSY for ever, one operation code unsupported) and 5% of the runs poll one command 40 times with "
+        "ever different answers and measure what library allocation sites retain. Non-trivial = a corruption fault fired and the decoder ran on "
         "it; distinct = event digest")
 COMPONENTS = {"real": ["every unmarshall_datain", "SCSICommand.unmarshall", "SCSICheckCondition", "facade", "SCSIDevice/ISCSIDevice"],
               "stubs": ["sgio module", "iscsi module", "virtual /dev"],
@@ -35,9 +37,13 @@ ASSUMPTIONS = [
     "'work' = source-line events inside /repo/pyscsi counted by sys.settrace; budget 20000 + 400*len(buffer): READ ELEMENT STATUS needs ~15 steps/byte on well-formed data but up to ~100 steps/byte when a corrupted descriptor length of 1 makes it decode one descriptor per byte; 150/byte was tried and false-alarmed on a slower-but-linear rewrite",
     "what a decoder returns for corrupt data is not judged (any value or any exception is fine)",
     "buffers up to 16 KiB (the largest default allocation length)",
+    "a call that sends more than 64 commands to a target that keeps answering the same is counted as not terminating (today every facade call sends one)",
+    "retained memory: bytes allocated at source lines of /repo/pyscsi and still alive (tracemalloc snapshot after gc.collect()) may grow by at most 256 KiB over 40 polls with different answers",
 ]
-REQUIRED_PROBES = ["corrupt_datain", "sense_payload", "zero_length_field", "direct_decode", "decoder_raised", "res_page"]
+REQUIRED_PROBES = ["corrupt_datain", "sense_payload", "zero_length_field", "direct_decode", "decoder_raised", "res_page", "sticky_target_answer", "retention_measured"]
 
+MAX_COMMANDS_PER_CALL = 64       # no facade call of the library needs more than one command today; retries must be bounded
+RETENTION_POLLS, RETENTION_BOUND = 40, 256 << 10
 BUDGET_BASE, BUDGET_PER_BYTE = 20000, 400
 GUARD_PER_BYTE = 40      # allocation-traced runs are ~10x slower: they stop at this smaller step count WITHOUT judging termination
 MEM_BASE, MEM_PER_BYTE = 16 << 20, 4096       # generous: honest decoders stay below 2 MiB for 16 KiB buffers
@@ -114,14 +120,34 @@ def gen_call(rng, method, cfg):
     return call
 
 
+def gen_quirk(rng):
+    """a target that keeps answering in one way, for as long as the initiator keeps asking (sticky: not consumed by one command)"""
+    r = rng.random()
+    if r < 0.4:
+        return {"kind": "status", "byte": 2, "sense": S.fixed(6, *rng.choice([(0x29, 0x00), (0x2A, 0x01), (0x3F, 0x0E)])).hex(), "sticky": True}     # UNIT ATTENTION for ever
+    if r < 0.7:
+        # one operation code is not supported (e.g. SERVICE ACTION IN(16) behind an old bridge): ILLEGAL REQUEST / INVALID COMMAND OPERATION CODE
+        return {"kind": "status", "byte": 2, "sense": S.fixed(5, 0x20, 0x00).hex(), "sticky": True, "opcode": rng.choice([0x9E, 0x9E, 0x25, 0xA3, 0x5E, 0x12])}
+    if r < 0.85:
+        return {"kind": "status", "byte": rng.choice([0x08, 0x28]), "sticky": True}       # BUSY / TASK SET FULL for ever
+    return {"kind": "status", "byte": 2, "sense": S.fixed(2, 0x04, 0x01).hex(), "sticky": True}       # NOT READY, becoming ready - for ever
+
+
 def generate(rng, idx, tier):
     kind = rng.choice([F.BLOCK, F.BLOCK, F.CHANGER, F.MMC])
     cfg = F.default_cfg(kind)
+    if kind == F.BLOCK and rng.random() < 0.25:
+        cfg["nblocks"] = rng.choice([1 << 33, (1 << 32) + 5, (1 << 64) - 1])     # READ CAPACITY(10) answers FFFFFFFFh
     ops = []
     for _ in range(rng.choice([1, 2, 3, 4, 6])):
         m = rng.choice(BY_KIND[kind])
         op = gen_call(rng, m, cfg)
         r = rng.random()
+        if r < 0.08:
+            op["fault"] = gen_quirk(rng)
+            op["direct_cuts"] = []
+            ops.append(op)
+            continue
         if r < 0.75:
             op["fault"] = gen_corruption(rng, m)
         elif r < 0.9:
@@ -131,7 +157,10 @@ def generate(rng, idx, tier):
             op["fault"] = None
         op["direct_cuts"] = sorted(set(rng.choice([0, 1, 2, 3, 4, 7, 8, 9, 11, 12, 16, 17, 24, 40, 64]) for _ in range(rng.randrange(0, 4))))
         ops.append(op)
-    return {"property": ID, "config": {"lu": cfg, "transport": rng.choice(["sgio", "iscsi"]), "mem": rng.random() < 0.1}, "ops": ops}
+    mem = rng.random() < 0.1
+    return {"property": ID, "config": {"lu": cfg, "transport": rng.choice(["sgio", "iscsi"]), "mem": mem,
+                                       # in allocation-traced runs: poll one command 40 times with ever different answers and see what the library keeps
+                                       "retention": mem and rng.random() < 0.5}, "ops": ops}
 
 
 def enumerated_count(tier):
@@ -223,6 +252,12 @@ def execute(prog):
         fired0 = dict(WORLD.fired)
         kind, val, n = meter.run(lambda: getattr(scsi, m)(*args, **kw), BUDGET_BASE + (GUARD_PER_BYTE if mem_on else BUDGET_PER_BYTE) * 16384)
         mem_check(m, len(handed[0].datain) if handed and handed[0].datain is not None else 16384, where)
+        if fault and fault.get("sticky"):
+            WORLD.probe("sticky_target_answer")
+            if len(handed) > MAX_COMMANDS_PER_CALL and kind != "budget":
+                V.append(dict(oracle="C11.no-termination", where=where, detail=m + "/commands",
+                              expected="a call gives up after a bounded number of commands (at most %d) when the target keeps answering the same" % MAX_COMMANDS_PER_CALL,
+                              actual="%d commands sent in one call" % len(handed)))
         fmode = (fault or {}).get("mode", (fault or {}).get("kind", "none"))
         buflen = len(handed[0].datain) if handed and handed[0].datain is not None else 0
         if m == "readelementstatus" and handed:
@@ -272,6 +307,39 @@ def execute(prog):
         if k not in sigs:
             sigs.add(k)
             out_v.append(v)
+    if mem_on and prog["config"].get("retention") and prog["ops"] and not V:
+        # "allocate without bound" over a sequence: an application polls one command; every answer differs; what do library
+        # allocation sites still hold afterwards?  (allocations made in library source files only; harness and event log excluded)
+        import gc
+        op = prog["ops"][0]
+        m = op["m"]
+        args, kw = F.real_args(op["args"]), F.real_args(op["kw"])
+
+        def lib_bytes():
+            gc.collect()
+            snap = tracemalloc.take_snapshot().filter_traces([tracemalloc.Filter(True, PREFIX + "*")])
+            return sum(st.size for st in snap.statistics("filename"))
+
+        def poll(k):
+            WORLD.armed.clear()
+            WORLD.arm({"kind": "corrupt_datain", "mode": "set", "bytes": [[8 + (k % 5), (k * 37 + 11) & 0xFF], [3, k & 0xFF], [14, (k >> 3) & 0xFF]]})
+            del handed[:]
+            del WORLD.deliveries[:]      # the harness's own references to the library's buffers
+            del lu.log[:]
+            meter.run(lambda: getattr(scsi, m)(*args, **kw), BUDGET_BASE + GUARD_PER_BYTE * 16384)
+        for k in range(6):
+            poll(k)
+        before = lib_bytes()
+        for k in range(6, 6 + RETENTION_POLLS):
+            poll(k)
+        grown = lib_bytes() - before
+        WORLD.probe("retention_measured")
+        WORLD.ev("retention", m=m, grown_kib=grown >> 10 if grown > RETENTION_BOUND else 0)
+        if grown > RETENTION_BOUND:
+            V.append(dict(oracle="C11.memory", where=where, detail=m + "/retained",
+                          expected="memory held by library code does not grow with the number of (different) answers decoded: at most %d KiB after %d polls" % (RETENTION_BOUND >> 10, RETENTION_POLLS),
+                          actual="%d KiB more held after %d further polls of %s" % (grown >> 10, RETENTION_POLLS, m)))
+        out_v = V if not out_v else out_v + [v for v in V if v not in out_v]
     if mem_on:
         tracemalloc.stop()
     stats = {"events": len(WORLD.events), "steps": meter.total, "peak_alloc_kib_sum": peak_max[0] >> 10}
